@@ -16,7 +16,8 @@ EXPLANATION = (
     "and in the order / sports-data / raw-data dispatchers the middleware loop precedes the strategy loop, "
     "neither loop can be left early, and each callback is dispatched once per strategy; (R4) the traded-volume "
     "ladder handed to the simulated matcher is copied once per strategy (inside the strategy loop, outside "
-    "the order loop) and once per instance when isolation is off. The metamorphic equality run(A) = run(A+B) "
+    "the order loop) and once per instance when isolation is off; (R5) the pending-package queue shared by all "
+    "strategies is scanned completely with a per-package release test. The metamorphic equality run(A) = run(A+B) "
     "is not decided."
 )
 
@@ -102,6 +103,18 @@ def run(ctx, rep):
                     gs = [(utext(g.exprs[0]), pol) for n in rn for g, pol in cfg.guards(n.id)]
                     ok = ok and ("config.raise_errors", True) in gs
                 rep.check(ok, "R2", key(f, None, "Exception re-raised only under config.raise_errors"), f, h)
+        # nothing in a handler may raise itself: logger calls over names / attributes / constants only
+        for h in t.handlers:
+            risky = []
+            for x in ast.walk(ast.Module(body=h.body, type_ignores=[])):
+                if isinstance(x, ast.Subscript):
+                    risky.append(utext(x))
+                elif isinstance(x, ast.Call) and not (isinstance(x.func, ast.Attribute) and utext(x.func.value) == "logger"):
+                    risky.append(utext(x))
+                elif isinstance(x, (ast.BinOp, ast.JoinedStr)) :
+                    risky.append(utext(x))
+            rep.check(not risky, "R2", key(f, None, "%s handler cannot raise itself" % utext(h.type)), f, h,
+                      "an exception raised while handling (%s) escapes the containment" % "; ".join(risky[:3]))
         # the body of the try is the callback call only
         body_calls = [c for s in t.body for c in walk_calls([s])]
         rep.check(len(t.body) == 1 and len(body_calls) >= 1 and not t.finalbody, "R2",
@@ -172,6 +185,13 @@ def run(ctx, rep):
 
     # ------------------------------------------------------------------ R4 copy discipline
     copy_discipline(ctx, rep, "R4")
+
+    # ------------------------------------------------------------------ R5 shared pending queue
+    # the queue of pending packages is shared by all strategies: each package must be judged on its
+    # own (whole queue scanned, release test per package), otherwise one strategy's slow request
+    # delays another strategy's fast one
+    from rules.c07 import release_loop
+    release_loop(ctx, rep, "R5")
 
 
 def _inside_try(f, call):
@@ -350,6 +370,10 @@ MUTANTS = [
          old="                if live_orders:\n                    _lookup = {\n                        k: (v.runner, v.traded.copy())\n                        for k, v in market_analytics.items()\n                    }\n                    live_orders_sorted",
          new="                if live_orders:\n                    _lookup = {\n                        k: (v.runner, v.traded)\n                        for k, v in market_analytics.items()\n                    }\n                    live_orders_sorted",
          expect=["R4"], why="strategies consume each other's liquidity"),
+    dict(id="c13-handler-subscript", file=_U, func="call_process_raw_data",
+         old="            \"FlumineException %s in %s\",\n            e,\n            strategy,\n",
+         new="            \"FlumineException %s in %s (%s)\",\n            e,\n            strategy,\n            datum[\"id\"],\n",
+         expect=["R2"], why="KeyError inside the handler escapes the containment"),
     dict(id="c13-false-not-returned", file=_U, func="call_strategy_error_handling",
          old="            raise\n    return False", new="            raise\n    return True", expect=["R2"],
          why="process_market_book runs after check_market_book crashed"),
